@@ -89,7 +89,12 @@ func splitSlash(s string) []string {
 	return append(out, cur)
 }
 
-func (c07) NRuns(tier string) int { return len(c07Build(tier)) }
+func (c07) NRuns(tier string) int {
+	if tier == "thorough" {
+		return len(c07Build(tier)) * 8 // every (entry, k) under read sizes "all", 1..7
+	}
+	return len(c07Build(tier))
+}
 func (c07) Rule() string {
 	return "enumeration: for every zoo package E (quick: one per package type and data-type family up to 200 bytes; thorough: the whole zoo) and EVERY proper prefix length k in 1..|E|-1, the context format plus E[:k] arrives as a packet without end-of-message, the channel is polled after quiescence, then E[k:] arrives with end-of-message and the channel is polled again; compared with the context alone and with the unfragmented response; non-trivial = 0<k<|E|; distinct = distinct (entry, k); exhaustive over k per entry set"
 }
@@ -101,7 +106,9 @@ func (c07) Gen(r *Rand, idx int, tier string) interface{} {
 	cs := c07Build(tier)
 	c := cs[idx%len(cs)]
 	p := &c07Plan{Entry: c.entry, K: c.k}
-	if idx%5 == 4 {
+	if tier == "thorough" {
+		p.ReadSize = idx / len(cs)
+	} else if idx%5 == 4 {
 		p.ReadSize = 1 + idx%7
 	}
 	return p
